@@ -1,6 +1,6 @@
 (* C09 -- property theorems only: each is closed by [exact] of a lemma proved elsewhere. *)
 From Coq Require Import List Arith ZArith.
-From Muscle Require Import Cont.HtModel Cont.HtStep Cont.HtIdeal Cont.HtProofs.
+From Muscle Require Import Cont.HtModel Cont.HtStep Cont.HtIdeal Cont.HtLemmas.
 
 Theorem C09_upd_nth_length : forall A (l : list A) i x, length (upd_nth l i x) = length l.
 Proof. exact upd_nth_length. Qed.
